@@ -80,8 +80,8 @@ class Build:
     def _gc(self):
         base = os.path.join(WORK, "cache")
         ds = sorted((os.path.getmtime(os.path.join(base, d)), d) for d in os.listdir(base))
-        for _, d in ds[:-3]:
-            if d != self.repo_h:
+        for mt, d in ds[:-4]:
+            if d != self.repo_h and time.time() - mt > 3 * 3600:  # another process may be using a recent one
                 shutil.rmtree(os.path.join(base, d), ignore_errors=True)
 
     def flags(self, mode):
@@ -97,7 +97,7 @@ class Build:
         d = os.path.join(self.root, mode + "-" + self.fw_h)
         os.makedirs(d, exist_ok=True)
         ar = os.path.join(d, "libcrab_%s.a" % mode)
-        with self._lock(ar):
+        with self._lock(ar), FileLock(ar + ".lock"):  # the file lock serialises concurrent run.py processes
             return self._lib(mode, d, ar)
 
     def _lib(self, mode, d, ar):
@@ -130,7 +130,7 @@ class Build:
         d = os.path.join(self.root, mode + "-" + self.fw_h)
         os.makedirs(d, exist_ok=True)
         exe = os.path.join(d, "%s-%s" % (name, key))
-        with self._lock(exe):
+        with self._lock(exe), FileLock(exe + ".lock"):
             return self._harness(name, mode, defines, src, exe)
 
     def _harness(self, name, mode, defines, src, exe):
@@ -146,6 +146,23 @@ class Build:
         os.replace(tmp, exe)
         self.log.append("built %s[%s] %s in %.1fs" % (name, mode, " ".join(defines), time.time() - t0))
         return exe
+
+
+class FileLock:
+    """advisory lock shared by all run.py processes (build cache)"""
+
+    def __init__(self, path):
+        self.path = path
+
+    def __enter__(self):
+        import fcntl
+        self.f = open(self.path, "w")
+        fcntl.flock(self.f, fcntl.LOCK_EX)
+
+    def __exit__(self, *a):
+        import fcntl
+        fcntl.flock(self.f, fcntl.LOCK_UN)
+        self.f.close()
 
 
 class BrokenCheck(Exception):
